@@ -1335,6 +1335,30 @@ class Interp:
                     first = fr.locals.get(n0.args.args[0].arg)
             return self.env.make_super(self, cls, first)
         if isinstance(node.func, ast.Attribute) and self.env.is_logger_call(self, node, frame):
+            # the call itself has no effect, but its ARGUMENTS are evaluated like any others (they are computed whether or
+            # not the level is enabled, and computing them can raise: TLV.to_string did).  An argument outside the
+            # supported subset is skipped and listed as an assumption in the evidence.
+            if not self.ctx.pure:
+                for a in list(node.args) + [k.value for k in node.keywords]:
+                    if isinstance(a, (ast.Constant, ast.Name, ast.Attribute)):
+                        continue
+                    try:
+                        txt = ast.unparse(a)[:80]
+                    except Exception:  # noqa: BLE001
+                        txt = "<expr>"
+                    # a call of a function that has a contract for call sites is evaluated (by that contract: cheap, and
+                    # its `raises` are taken into account); anything else is skipped and listed as an assumption
+                    fn = None
+                    if isinstance(a, ast.Call):
+                        try:
+                            fn = self.eval(a.func, frame)
+                        except Unsupported:
+                            fn = None
+                    target = getattr(fn, "__func__", fn)
+                    if isinstance(target, types.FunctionType) and self.env.modular_contract(target, self) is not None:
+                        self.eval(a, frame)
+                    else:
+                        self.env.assumptions_used.add(f"argument of a logging call not evaluated (assumed not to raise): {txt}")
             return None
         fn = self.eval(node.func, frame)
         args = []
